@@ -493,6 +493,52 @@ def run(ctx):
                 ctx.fail(dict(case, step=what), 'step "%s" after the earlier comparisons %s, it should %s'
                          % (what, 'passes' if got else 'fails', 'pass' if want else 'fail'))
                 break
+    # ---- on-disk comparisons of files with the same size and the same modification time (as after a checkout or an
+    # archive extraction) that differ in one digit / one letter of a column name: the comparison is of contents
+    for it in range(8 if ctx.quick else 80):
+        n = rng.randint(2, 5)
+        ref = pd.DataFrame({'key': list(range(10, 10 + n)), 'val': [rng.randint(100, 999) for _ in range(n)],
+                            'txt': ['t%d' % rng.randint(10, 99) for _ in range(n)]})
+        act = ref.copy()
+        kind = rng.choice(['digit', 'name', 'text', 'same'])
+        row = rng.randrange(n)
+        if kind == 'digit':
+            act.loc[row, 'val'] = (int(ref.loc[row, 'val']) - 100 + 37) % 900 + 100
+        elif kind == 'text':
+            act.loc[row, 'txt'] = 'u' + str(ref.loc[row, 'txt'])[1:]
+        elif kind == 'name':
+            act = act.rename(columns={'val': 'vbl'})
+        fmt = rng.choice(['csv', 'csv', 'parquet'])
+        rp = os.path.join(tmp, 'same-size%d-ref.%s' % (it, fmt))
+        ap = os.path.join(tmp, 'same-size%d-act.%s' % (it, fmt))
+        for fr, pth in ((ref, rp), (act, ap)):
+            (fr.to_parquet(pth) if fmt == 'parquet' else fr.to_csv(pth, index=False))
+        st_ = os.stat(rp)
+        os.utime(ap, ns=(st_.st_atime_ns, st_.st_mtime_ns))
+        same_size = os.path.getsize(rp) == os.path.getsize(ap)
+        want = kind == 'same'
+        entry = rng.choice(['ondisk', 'csvfile', 'ondisk-list']) if fmt == 'csv' else rng.choice(['ondisk', 'ondisk-list'])
+        case = {'scenario': 'on-disk files of equal size and modification time', 'format': fmt, 'kind': kind, 'entry': entry,
+                'reference': ref.to_dict('list'), 'actual': act.to_dict('list'), 'same_size': same_size}
+        ctx.count(repr(case), True)
+        ctx.bump('same_size_same_mtime.%s.%s' % (fmt, kind))
+        try:
+            with contextlib.redirect_stdout(io.StringIO()):
+                if entry == 'ondisk':
+                    rt.assertOnDiskDataFrameCorrect(ap, rp)
+                elif entry == 'csvfile':
+                    rt.assertCSVFileCorrect(ap, rp)
+                else:
+                    rt.assertOnDiskDataFramesCorrect([ap], [rp])
+            got = True
+        except AssertFail:
+            got = False
+        except Exception as e:
+            ctx.fail(case, 'the assertion raised %s: %s' % (type(e).__name__, str(e)[:150]))
+            continue
+        if got != want:
+            ctx.fail(case, 'the on-disk assertion %s although the files hold %s frames'
+                     % ('passes' if got else 'fails', 'equal' if want else 'different'))
     shutil.rmtree(tmp, ignore_errors=True)
     ctx.cov['rule'] = ('reference frames over 12 dtypes (nulls, inf, categoricals, extension types, non-string column names) x '
                        'one mutation (cell beyond / within precision, rename, retype, move, drop, extra, row drop/add, none) x '
